@@ -125,6 +125,7 @@ func (s *snapshots) open() (*snapshot, error) {
 	if err != nil {
 		return nil, err
 	}
+	verifPoint("snaps.open", s, meta.index)
 	s.used[meta.index]++
 	return &snapshot{
 		snaps: s,
@@ -141,6 +142,7 @@ type snapshot struct {
 
 func (s *snapshot) release() {
 	_ = s.file.Close()
+	verifPoint("snaps.release", s.snaps, s.meta.index)
 	s.snaps.usedMu.Lock()
 	defer s.snaps.usedMu.Unlock()
 	if s.snaps.used[s.meta.index] == 1 {
@@ -211,6 +213,7 @@ func (s *snapshotSink) done(err error) (snapshotMeta, error) {
 	if err = os.Rename(temp.Name(), file); err != nil {
 		return s.meta, err
 	}
+	verifPoint("snapsink.renamed", s.snaps, s.meta.index)
 	temp = nil
 	s.snaps.mu.Lock()
 	s.snaps.index, s.snaps.term = s.meta.index, s.meta.term
